@@ -386,6 +386,18 @@ PRELUDE = """(define (c12-write d) (let ([p (open-output-string)]) (write d p) (
   (let* ([text (c12-write d)]
          [back (with-handler (lambda (e) 'c12-read-raised) (read (open-input-string text)))])
     (string-append (if (equal? d back) "T" "F") text)))
+;;;;
+(define (c12-read1 s)
+  (let ([v (with-handler (lambda (e) 'c12-read-raised) (read (open-input-string s)))])
+    (if (eof-object? v) 'c12-eof v)))
+;;;;
+(define (c12-read-all s)
+  (let ([p (open-input-string s)])
+    (let loop ([n 0] [acc '()])
+      (let ([v (with-handler (lambda (e) 'c12-read-raised) (read p))])
+        (if (or (eof-object? v) (> n 40))
+            (reverse acc)
+            (loop (+ n 1) (cons v acc)))))))
 """
 
 
@@ -724,6 +736,97 @@ def tie_texts(ck, texts, tag):
     return classes
 
 
+HISTORY_TEXTS = ["a b", "(1 2", "\"abc", "|x", ")", "(1 . )", "#\\xZZ", "", "  ", "x", "(a (b", "1 2 3", "'", "`(a ,", "#|", "(c",
+                 "\"s\" t", "#(1", "#u8(1", "(quote", "; c", "#;", "#;(a", "(a . b) (", "]", "5"]
+
+
+def expected_read1(model_line):
+    p = model_line.split(" ", 2)
+    if p[0] == "ok":
+        return p[2]
+    if p[0] == "converr":
+        return "'\"c12-read-raised\""
+    if p[0] in ("eof", "err"):
+        return "'\"c12-eof\""
+    return None            # panic / unmodelled: no expectation
+
+
+def tie_histories(ck, n, tag):
+    """(d) `read` must not depend on what earlier reads (on other ports) left behind: every text of a history is read
+    once through a fresh string port on ONE engine; the expected value is the model's reading of that text alone.
+    Second family: all the data of one port, read one after the other."""
+    rng = ck.rng
+    hists = []
+    try:
+        hists = [list(h) for h in json.load(open(os.path.join(CORPUS_DIR, "regressions.json"))).get("histories", [])]
+    except (OSError, ValueError):
+        pass
+    for _ in range(n):
+        h = []
+        for _ in range(rng.randint(2, 6)):
+            k = rng.random()
+            if k < 0.55:
+                h.append(rng.choice(HISTORY_TEXTS))
+            elif k < 0.8:
+                h.append(render_written(gen_datum(rng, 2, {})))
+            else:
+                h.append(mutate(rng, rng.choice(SEED_TEXTS[:40])))
+        hists.append([t for t in h if "@doc" not in t and "\x00" not in t])
+    texts = sorted(set(t for h in hists for t in h))
+    mread = dict(zip(texts, ck.coq_eval(HEADER, ["run_read %s" % coq_text(t) for t in texts], shard=250)))
+    cases = [["E:(c12-read1 %s)" % steel_text([ord(c) for c in t]) for t in h] for h in hists]
+    res = ck.eval_cases(cases, prelude=PRELUDE, binary="c12", batch=40, timeout_per_batch=120)
+    for h, rs in zip(hists, res):
+        ck.cov["evaluations"] += len(h)
+        if not rs or len(rs) != len(h):
+            ck.failing_input("a history of reads kills / hangs the engine: %r" % (h,), {"kind": "read-history", "history": h, "impl": rs}, tag=tag)
+            continue
+        for i, (t, r) in enumerate(zip(h, rs)):
+            lines = model_read_lines(mread[t])
+            exp = expected_read1(lines[0])
+            if exp is None or "panic" in r:
+                break          # a reader panic is reported by tie (a); the engine of this history is gone
+            got = norm_canon(r["ok"][-1]) if "ok" in r and r["ok"] else json.dumps(r)
+            if got != exp:
+                ck.failing_input("`read` depends on earlier reads from other ports: after reading %r, (read (open-input-string %r)) "
+                                 "gives %s instead of %s" % (h[:i], t, got[:80], exp[:80]),
+                                 {"kind": "read-history", "history": h, "index": i, "got": got, "expected": exp}, tag=tag)
+                break
+    # all data of one port
+    multi = [t for t in texts if len(mread[t].split("\t")) >= 2][:300] + ["a\u00a0 b", "1 \u3000 2 \u2003(3)", "a b c"]
+    # the script-level Reader re-parses the rest of the buffer after skipping whitespace, so a `#!` there is taken
+    # for a shebang line (TokenStream::new) and the rest of that line is dropped: not modelled, excluded here
+    multi = [t for t in dict.fromkeys(multi) if "#!" not in t]
+    mm = dict(zip(multi, ck.coq_eval(HEADER, ["run_read %s" % coq_text(t) for t in multi], shard=250)))
+    res = ck.eval_cases([["E:(c12-read-all %s)" % steel_text([ord(c) for c in t])] for t in multi], prelude=PRELUDE,
+                        binary="c12", batch=60, timeout_per_batch=120)
+    for t, rs in zip(multi, res):
+        ck.cov["evaluations"] += 1
+        lines = model_read_lines(mm[t])
+        if any(l.split(" ")[0] in ("panic", "unmodelled", "FUEL", "STUCK") for l in lines):
+            continue
+        exp = []
+        for l in lines:
+            e = expected_read1(l)
+            if l.startswith("ok") or l.startswith("converr"):
+                exp.append(e)
+            else:
+                break
+        r = rs[0] if rs else {"crash": "no-result"}
+        if "ok" not in r or not r["ok"]:
+            if "panic" in r:
+                continue
+            ck.failing_input("reading all data of the port over %r: %s" % (t, json.dumps(r)[:160]),
+                             {"kind": "read-port", "text": t, "impl": r}, tag=tag)
+            continue
+        got = norm_canon(r["ok"][-1])
+        want = "(" + " ".join(exp) + ")"
+        if got != want:
+            ck.failing_input("successive reads from one port over %r give %s, the data of the text are %s" % (t, got[:120], want[:120]),
+                             {"kind": "read-port", "text": t, "got": got, "expected": want}, tag=tag)
+    return len(hists), len(multi)
+
+
 def first_diff(a, b):
     for i in range(max(len(a), len(b))):
         x = a[i] if i < len(a) else "<none>"
@@ -825,6 +928,10 @@ def run(ck):
     # ---- (c) print -> parse
     progs = list(dict.fromkeys(PROGRAMS + [gen_program(rng) for _ in range(600 if quick else 10000)]))
     n_pp = tie_print_parse(ck, progs, "pp")
+    # ---- (d) read histories: one engine, many ports
+    n_h, n_m = tie_histories(ck, 150 if quick else 3000, "hist")
+    ck.cov["read_histories"] = n_h
+    ck.cov["ports_read_to_the_end"] = n_m
 
     ck.cov["distinct_nontrivial"] = len(classes) + len(kinds)
     ck.cov["rule"] = ("(a) distinct (read result classes of the first 4 data, set of token kinds) over texts from corpus + seeds + "
